@@ -75,6 +75,12 @@ func Serve(sockpath, dbpath string, opts ServeOpts) int {
 		logger.Println("aborting")
 		return 2
 	}
+	// The socket file is removed explicitly below, as soon as the daemon has
+	// decided to exit. Closing the listener must not remove it a second time:
+	// by then the path may belong to the socket of a newly started daemon.
+	if ul, ok := listener.(*net.UnixListener); ok {
+		ul.SetUnlinkOnClose(false)
+	}
 
 	st, err := store.NewStore(dbpath)
 	if err != nil {
